@@ -82,6 +82,7 @@ var gens = []generator{
 	{file: "InsdcWrite.lean", src: "seqio/insdc.go (GetQualifierType, QualifierIO.String, QualifierFormatter.String, INSDCFormatter.String)", run: genInsdcWrite},
 	{file: "FastaWrite.lean", src: "seqio/fasta.go (Fasta.WriteTo, FastaWriter.WriteSeq)", run: genFastaWrite},
 	{file: "GbFields.lean", src: "seqio/genbank.go (GenBankFields.ID, GenBankFields.String)", run: genGbFields},
+	{file: "GenBankWrite.lean", src: "seqio/genbank.go (GenBank.String)", run: genGenBankWrite},
 }
 
 func writeIfChanged(path string, content []byte) (bool, error) {
